@@ -82,9 +82,11 @@ func (enc *encoder) encodeAny(anyField j5reflect.AnyField) error {
 	}
 
 	var jsonData []byte
-	if val.J5Json != nil {
+	if len(val.J5Json) > 0 {
 		jsonData = val.J5Json
-	} else if val.Proto != nil {
+	} else {
+		// the proto payload of an empty message is empty (nil once it has been
+		// through the wire): it still decodes, to the empty message
 
 		mt, err := enc.codec.resolver.FindMessageByName(protoreflect.FullName(val.TypeName))
 		if err != nil {
